@@ -15,6 +15,16 @@ Step(e) ==
          IF e.day >= StdMinDay /\ e.day <= StdMaxDay
          THEN Check(~Has(e, "exc") /\ Has(e, "res") /\ IsDateOf(e.res, e.day), "to_date_is_the_same_physical_day")
          ELSE Check(Has(e, "exc"), "to_date_outside_stdlib_range_must_raise")
+    [] e.op = "fields_to_date" ->   \* a date given by its fields in its own calendar -> stdlib date / naive / aware datetime: the physical day is the
+                                     \* one the calendar's arithmetic (Calendars.tla) gives for those fields
+         IF e.cal \in ArithmeticIds /\ ~(e.cal = "Persian Arithmetic" /\ e.y < 476) /\ e.y >= MinYear(e.cal) /\ e.y <= MaxYear(e.cal)
+         THEN \E n \in {DayOf(e.cal, e.y, e.m, e.d)} :
+              IF n >= StdMinDay /\ n <= StdMaxDay
+              THEN /\ Check(~Has(e, "exc") /\ Has(e, "res") /\ IsDateOf(e.res, n), "to_date_is_the_same_physical_day")
+                   /\ (Has(e, "naive") => Check(IsDateTimeOf(e.naive, <<n, e.t3[1], e.t3[2]>>), "to_naive_datetime_same_day_time_truncated"))
+                   /\ (Has(e, "aware") => Check(IsDateTimeOf(e.aware, <<n, e.t3[1], e.t3[2]>>) /\ e.aware_off = e.off, "to_aware_datetime_same_local_time_and_offset"))
+              ELSE Check(Has(e, "exc"), "to_date_outside_stdlib_range_must_raise")
+         ELSE TRUE
     [] e.op = "time_rt" ->
          /\ Check(~Has(e, "exc") /\ Has(e, "t3") /\ e.t3 = <<SecOfTime(e.t), e.t[4] * 1000>>, "from_time_exact")
          /\ Check(Has(e, "back") /\ e.back = e.t, "time_round_trip")
